@@ -273,14 +273,22 @@ func c21ConcScenarios(thorough bool) []vScn {
 		{name: "dir-put-invalidate-get", cap: 4, setup: ab, threads: [][]ccOp{{ccDPut("/a", "x", "z")}, {ccDInv("/a")}, {ccDGet("/a")}}},
 		{name: "dir-get-vs-evicting-put", cap: 2, setup: ab, threads: [][]ccOp{{ccDGet("/a")}, {ccDPut("/c", "w")}}},
 	}
+	expired := func(ac *AttrCache, dc *DirCache) { // "/a" and the listing of "/a" have expired, later entries live for an hour
+		ac.UpdateTTL(time.Second)
+		ac.Put("/a", ccAttrs(1))
+		ac.UpdateTTL(time.Hour)
+		dc.UpdateTTL(time.Second)
+		dc.Put("/a", ccListing("x"))
+		dc.UpdateTTL(time.Hour)
+		vsched.Advance(2 * time.Second)
+	}
+	specs = append(specs,
+		// a Get that finds an expired entry removes it in a second critical section: a value stored in between must survive
+		ccSpec{name: "expired-get-vs-put-2", cap: 4, setup: expired, threads: [][]ccOp{{ccGet("/a")}, {ccPut("/a", 5)}}},
+		ccSpec{name: "dir-expired-get-vs-put-2", cap: 4, setup: expired, threads: [][]ccOp{{ccDGet("/a")}, {ccDPut("/a", "x", "z")}}})
 	if thorough {
 		specs = append(specs,
-			ccSpec{name: "expired-get-vs-put", cap: 4, setup: func(ac *AttrCache, dc *DirCache) {
-				ac.UpdateTTL(time.Second)
-				ac.Put("/a", ccAttrs(1))
-				ac.UpdateTTL(time.Hour)
-				vsched.Advance(2 * time.Second)
-			}, threads: [][]ccOp{{ccGet("/a")}, {ccPut("/a", 5)}, {ccGet("/a")}}},
+			ccSpec{name: "expired-get-vs-put", cap: 4, setup: expired, threads: [][]ccOp{{ccGet("/a")}, {ccPut("/a", 5)}, {ccGet("/a")}}},
 			ccSpec{name: "two-gets-vs-evicting-put", cap: 2, setup: ab, threads: [][]ccOp{{ccGet("/a")}, {ccGet("/b")}, {ccPut("/c", 3)}}})
 	}
 	var out []vScn
